@@ -24,10 +24,24 @@ theorem set_tensor_involutive (md md' : Mod) (n : Name) (t out : Tn) (hwf : Cell
     ∃ md'', setTensor md' n out = .ok (md'', t) ∧ md''.cell n = md.cell n ∧
       (∀ n', n' ≠ n → md''.cell n' = md.cell n') ∧ md''.kids = md.kids := by
   obtain ⟨h1, h2, h3⟩ := setTensor_ok h
-  obtain ⟨_, hb⟩ := cellSwap_involutive hwf h1
-  obtain ⟨md'', hs, hc⟩ := setTensor_of_cell (md := md') hb
+  obtain ⟨hwf', hb⟩ := cellSwap_involutive hwf h1
+  obtain ⟨md'', hs, hc⟩ := setTensor_of_cell (md := md') hwf' hb
   obtain ⟨_, h2', h3'⟩ := setTensor_ok hs
   exact ⟨md'', hs, hc, fun n' hn => by rw [h2' n' hn, h2 n' hn], by rw [h3', h3]⟩
+
+/-- **custom_setattr_branch_agrees** — the branch of `_to_module` taken for a module whose class overrides
+`__setattr__` (torch's `swap_tensor` / `setattr`, repaired) and the native branch (`_set_tensor_dict`) return the
+same object and leave the same bindings for the name (they differ only in the position of the entries inside the
+dicts). All theorems below are about `setTensor`, which picks the branch by the module's class, so they hold for
+graphs mixing both kinds of modules. -/
+theorem custom_setattr_branch_agrees (md a b : Mod) (n : Name) (t o1 o2 : Tn)
+    (h1 : setTensorCustom md n t = .ok (a, o1)) (h2 : setTensorNative md n t = .ok (b, o2)) :
+    o1 = o2 ∧ a.cell n = b.cell n ∧ ∀ n', n' ≠ n → a.cell n' = b.cell n' := by
+  obtain ⟨c1, f1, _⟩ := setTensorCustom_ok h1
+  obtain ⟨c2, f2, _⟩ := setTensorNative_ok h2
+  rw [c1] at c2
+  injection c2 with c2; injection c2 with e1 e2
+  exact ⟨e2, e1, fun n' hn => by rw [f1 n' hn, f2 n' hn]⟩
 
 /-! ## `to_module` -/
 
@@ -117,6 +131,49 @@ theorem from_module_exact (h : Heap) (hwf : ∀ c, NamesWF (h c)) (fuel : Nat) (
     namedTensors h fuel m = .ok (flatten (r.getD [])) :=
   fromModule_spec h hwf fuel m r hr
 
+/-! ## use_state_dict=True -/
+
+/-- **from_module_state_dict_exact** — `from_module(module, use_state_dict=True)`: the leaves, with their nested
+keys, are exactly the non-None parameters and the non-None *persistent* buffers of the module and its submodules
+through every path (`namedTensors` of the state-dict view), each as a detached tensor over the same storage. -/
+theorem from_module_state_dict_exact (h : Heap) (hwf : ∀ c, NamesWF (h c)) (fuel : Nat) (m : MId)
+    (r : Option (List (Name × PTree))) (hr : fromModuleSD h fuel m = .ok r) :
+    namedTensors (fun c => sdView (h c)) fuel m = .ok (flatten (r.getD [])) ∧
+    (∀ c n t, Dict.get? (sdView (h c)).buffers n = some t → n ∉ (h c).nonPersistent) := by
+  refine ⟨fromModule_spec _ (fun c => namesWF_sdView (h c) (hwf c)) fuel m r hr, ?_⟩
+  intro c n t hget hnp
+  -- a non-persistent name has been filtered out of the view
+  have : ∀ (l : Dict (Option Tn)), Dict.get? ((l.filter (fun e => !((h c).nonPersistent.contains e.1))).map
+      (fun e => (e.1, e.2.map (fun t => ({ t with isParam := false } : Tn))))) n = none := by
+    intro l
+    induction l with
+    | nil => rfl
+    | cons e l ih =>
+      simp only [List.filter_cons]
+      split
+      · rename_i hk
+        simp only [List.map_cons, Dict.get?]
+        have : e.1 ≠ n := by
+          intro e'; subst e'
+          simp only [Bool.not_eq_true', List.contains_eq_mem, decide_eq_false_iff_not] at hk
+          exact hk hnp
+        simp only [this, if_false]; exact ih
+      · exact ih
+  simp only [sdView] at hget
+  rw [this] at hget; cases hget
+
+/-- **swap_state_dict_involutive** — `params.to_module(module, use_state_dict=True)` (repaired `convert_type`, no
+state-dict hooks) followed by the same call on the returned swap restores every binding: the with-block guarantee
+for the state-dict API, for all module graphs. -/
+theorem swap_state_dict_involutive (h h' : Heap) (m : MId) (p s : List (Name × PTree)) (hwf : HeapWF h)
+    (hnd : LeafNodup p) (hs : swapSD h m p = .ok (h', s)) :
+    ∃ h'' p', swapSD h' m s = .ok (h'', p') ∧ HeapEq h'' h := by
+  unfold swapSD at hs ⊢
+  have hnd' := leafNodup_prune p hnd
+  -- the swap of a re-nested tensordict is in re-nested form itself (leaves first, no empty entry), so re-nesting it changes nothing
+  rw [prune_id s (swap_normal hs (normal_prune p))]
+  exact swap_restores hwf hnd' hs (HeapEq.refl h')
+
 /-! ## with-blocks -/
 
 /-- **blocks_restore** — any program of with-blocks, nested to any depth, with `raise` at any point of
@@ -179,6 +236,41 @@ theorem with_block_restores_on_raise (σ σ1 σ2 : State) (i : Nat) (p : List (N
     cases b <;> simp at hne ⊢
   exact ⟨hstatus, (hspec.2 (by rw [hstatus]; simp)).1⟩
 
+/-- **with_block_restores_on_base_exception** — the same when the body is left by a BaseException that is not an
+Exception (KeyboardInterrupt, SystemExit, GeneratorExit of a generator closed at a `yield` inside the block, a cancelled
+task): it propagates *as itself* (`__exit__` hands Python `False`, not a tensordict) and the module is restored.
+`with p.to_module(m): pre; raise <BaseException>; post` where `to_module`
+succeeded and `pre` ran normally: the exception propagates out of the block and the module is restored. -/
+theorem with_block_restores_on_base_exception (σ σ1 σ2 : State) (i : Nat) (p : List (Name × PTree)) (m : MId)
+    (temp : Bool) (pre post : List Stmt) (hwf : HeapWF σ.heap) (hnd : LeafNodup p) (hpre : ProgOK pre) (hpost : ProgOK post)
+    (hentry : toModule σ p m temp = .ok (σ1, i))
+    (hrun : exec (enterBlock σ1 i) pre = (σ2, .normal)) :
+    ((exec σ [.block p m temp (pre ++ .raiseBase :: post)]).2 = .raisedBase ∨
+      -- (or the KeyError of `_quick_set`, raised by `__exit__` after the module has been restored)
+      (exec σ [.block p m temp (pre ++ .raiseBase :: post)]).2 = .raised) ∧
+    HeapEq (exec σ [.block p m temp (pre ++ .raiseBase :: post)]).1.heap σ.heap := by
+  have hok : ProgOK [.block p m temp (pre ++ .raiseBase :: post)] := by
+    have : ∀ (a b : List Stmt), ProgOK a → ProgOK b → ProgOK (a ++ b) := by
+      intro a b ha hb
+      induction a with
+      | nil => simpa using hb
+      | cons x xs ih => simp only [List.cons_append, ProgOK] at ha ⊢; exact ⟨ha.1, ih ha.2⟩
+    simp only [ProgOK, StmtOK, and_true]
+    exact ⟨hnd, this pre _ hpre (by simp [ProgOK, StmtOK, hpost])⟩
+  have hspec := blocks_restore _ σ hwf hok
+  have hbody : exec (enterBlock σ1 i) (pre ++ .raiseBase :: post) = (σ2, .raisedBase) := by
+    unfold exec at hrun ⊢
+    rw [exec_append_normal _ pre _ _ σ2 hrun]; simp [execList, execStmt]
+  have hstatus : (exec σ [.block p m temp (pre ++ .raiseBase :: post)]).2 = .raisedBase ∨
+      (exec σ [.block p m temp (pre ++ .raiseBase :: post)]).2 = .raised := by
+    have hne := hspec.1
+    unfold exec at hbody hne ⊢
+    simp only [execList, execStmt, hentry, hbody] at hne ⊢
+    generalize exitBlock σ2 i (Status.raisedBase == Status.raised) = r at hne ⊢
+    obtain ⟨σ4, b⟩ := r
+    cases b <;> simp at hne ⊢
+  exact ⟨hstatus, (hspec.2 (by rcases hstatus with h | h <;> rw [h] <;> simp)).1⟩
+
 /-- **nested_blocks_restore** (LIFO) — two blocks nested on the same or different modules, the inner
 body raising or not, an exception caught between them or not: a special case of `blocks_restore`
 spelled out for the common shape. -/
@@ -201,7 +293,7 @@ theorem old_exit_on_raise_counterexample :
       = ⟨none, none, some ⟨10, false⟩⟩ ∧
     cellAt h0 0 "w" = ⟨some (some ⟨1, true⟩), none, none⟩ ∧
     ((execOld ⟨h0, []⟩ [.tryExcept [.block [("w", .leaf ⟨10, false⟩)] 0 false [.raise]]]).1.td 0).queue.length = 1 := by
-  simp [execOld, execList, execStmt, toModule, swap, swapEntries, swapEntriesWith, setTensor, setTensorWith,
+  simp [execOld, execList, execStmt, toModule, swap, swapEntries, swapEntriesWith, setTensor, setTensorNative, setTensorWith,
     h0, Dict.get?, Dict.pop, place, Dict.set, Option.join, enterBlock, exitBlockOld, State.td, State.setTd,
     Heap.upd, cellAt, Mod.cell]
 
@@ -238,11 +330,11 @@ example : HeapWF h0 := by
 
 example : (exec ⟨h0, []⟩ [.tryExcept [.block [("w", .leaf ⟨10, false⟩), ("rm", .leaf ⟨11, true⟩)] 0 true [.nop, .raise]]]).2
     = .normal := by
-  simp [exec, execList, execStmt, toModule, swap, swapEntries, swapEntriesWith, setTensor, setTensorWith,
+  simp [exec, execList, execStmt, toModule, swap, swapEntries, swapEntriesWith, setTensor, setTensorNative, setTensorWith,
     h0, Dict.get?, Dict.pop, place, Dict.set, Option.join, enterBlock, exitBlock, quickSet, State.td, State.setTd, Heap.upd]
 example : cellAt (exec ⟨h0, []⟩ [.tryExcept [.block [("w", .leaf ⟨10, false⟩), ("rm", .leaf ⟨11, true⟩)] 0 true [.nop, .raise]]]).1.heap 0 "rm"
     = cellAt h0 0 "rm" := by
-  simp [exec, execList, execStmt, toModule, swap, swapEntries, swapEntriesWith, setTensor, setTensorWith,
+  simp [exec, execList, execStmt, toModule, swap, swapEntries, swapEntriesWith, setTensor, setTensorNative, setTensorWith,
     h0, Dict.get?, Dict.pop, place, Dict.set, Option.join, enterBlock, exitBlock, quickSet, State.td, State.setTd,
     Heap.upd, cellAt, Mod.cell]
 
